@@ -171,14 +171,12 @@ impl AliasParser {
                     "+" => Ok((feature, Mods::Binary(BinMod::Positive))),
                     "-" => Ok((feature, Mods::Binary(BinMod::Negative))),
                     _ if feature == FeatType::Supr(SupraType::Tone) => {
-                        // as in a rule, a tone has at most four digits (and must fit the tone type)
-                        if value.chars().filter(|c| *c != '0').count() > 4 {
+                        // as in a rule and in a word, zero digits are dropped and a tone has at most four digits
+                        let v = value.replace('0', "");
+                        if v.chars().count() > 4 {
                             return Err(AliasSyntaxError::ToneTooBig(self.curr_tkn.clone()))
                         }
-                        match value.parse() {
-                            Ok(n) => Ok((feature, Mods::Number(n))),
-                            Err(_) => Err(AliasSyntaxError::ToneTooBig(self.curr_tkn.clone())),
-                        }
+                        Ok((feature, Mods::Number(v.parse().unwrap_or(0))))
                     },
                     _ => {
                         unreachable!();
